@@ -333,7 +333,7 @@ def validity_relations(ctx):
     for m in cct_members(ctx.prog):
         for perm in (False, True):
             body = chain_branch(chain, m, {flag: perm})
-            out[(m, perm)] = _checker_relation(fn, body)
+            out[(m, perm)] = _checker_relation(fn, body, m, {flag: perm})
     return fn, out
 
 
@@ -381,7 +381,86 @@ def _columnwise_relation(fn, body):
     return None
 
 
-def _checker_relation(fn, body):
+def _flagged_row_predicate(fn, body, member, flags):
+    """Relation kept by `lambda row: helper(row, flag=<local bool>)` for this member / flag assignment, else None."""
+    if member is None:
+        return None
+    fl = dict(flags)
+    for st in body:
+        if isinstance(st, ast.Assign) and isinstance(st.targets[0], ast.Name):
+            try:
+                fl[st.targets[0].id] = bool(_eval_chain_test(st.value, member, fl))
+            except AnalysisError:
+                pass
+    for st in body:
+        for lam in ast.walk(st):
+            if not (isinstance(lam, ast.Lambda) and isinstance(lam.body, ast.Call) and
+                    isinstance(lam.body.func, ast.Name)):
+                continue
+            h = fn.module.functions.get(lam.body.func.id) or fn.nested.get(lam.body.func.id)
+            if h is None:
+                continue
+            c = lam.body
+            hfl = {}
+            bind = list(zip(h.params, c.args)) + [(k.arg, k.value) for k in c.keywords if k.arg]
+            for q, a in bind:
+                if isinstance(a, ast.Name) and a.id in fl:
+                    hfl[q] = fl[a.id]
+                elif isinstance(a, ast.Constant) and isinstance(a.value, bool):
+                    hfl[q] = a.value
+            stmts = _select(list(h.node.body), member, hfl)
+            # names of the two shifted views: X[:-1] is the earlier element of each adjacent pair, X[1:] the later one
+            role = {}
+            for a in stmts:
+                if isinstance(a, ast.Assign):
+                    tg, vs = a.targets[0], a.value
+                    pairs = list(zip(tg.elts, vs.elts)) if isinstance(tg, ast.Tuple) and isinstance(vs, ast.Tuple) \
+                        else [(tg, vs)]
+                    for t_, v_ in pairs:
+                        if isinstance(t_, ast.Name) and isinstance(v_, ast.Subscript):
+                            sl = norm(v_.slice)
+                            if sl == ':-1':
+                                role[t_.id] = 'earlier'
+                            elif sl == '1:':
+                                role[t_.id] = 'later'
+
+            def side(e):
+                if isinstance(e, ast.Name):
+                    return role.get(e.id)
+                if isinstance(e, ast.Subscript):
+                    return {':-1': 'earlier', '1:': 'later'}.get(norm(e.slice))
+                return None
+            for r in stmts:
+                if not (isinstance(r, ast.Return) and r.value is not None):
+                    continue
+                v, neg = r.value, False
+                if isinstance(v, ast.UnaryOp) and isinstance(v.op, ast.Not):
+                    v, neg = v.operand, True
+                if isinstance(v, ast.Call) and call_name(v) in ('any', 'all') and len(v.args) == 1 and \
+                        isinstance(v.args[0], ast.Compare) and len(v.args[0].ops) == 1:
+                    cmp_ = v.args[0]
+                    l, rr = side(cmp_.left), side(cmp_.comparators[0])
+                    if {l, rr} != {'earlier', 'later'}:
+                        raise AnalysisError(f'A14: unrecognised row comparison `{norm(cmp_)}`')
+                    op = type(cmp_.ops[0])
+                    inv = {ast.Lt: ast.GtE, ast.LtE: ast.Gt, ast.Gt: ast.LtE, ast.GtE: ast.Lt, ast.Eq: ast.NotEq,
+                           ast.NotEq: ast.Eq}
+                    if call_name(v) == 'any' and neg:
+                        op = inv[op]            # rejected when the comparison holds somewhere
+                    elif call_name(v) == 'all' and not neg:
+                        pass                    # kept when it holds everywhere
+                    else:
+                        raise AnalysisError(f'A14: unrecognised row predicate `{norm(r.value)}`')
+                    if l == 'later':
+                        kept = {ast.GtE: '<=', ast.Gt: '<', ast.LtE: '>=', ast.Lt: '>', ast.NotEq: '!=', ast.Eq: '='}
+                    else:
+                        kept = {ast.LtE: '<=', ast.Lt: '<', ast.GtE: '>=', ast.Gt: '>', ast.NotEq: '!=', ast.Eq: '='}
+                    return kept.get(op, '?')
+                break
+    return None
+
+
+def _checker_relation(fn, body, member=None, flags=None):
     if any(isinstance(s, ast.Raise) for s in body):
         return 'raise'
     cw = _columnwise_relation(fn, body)
@@ -405,6 +484,11 @@ def _checker_relation(fn, body):
                     if isinstance(c, ast.Compare) and len(c.ops) == 1 and norm(c.left).endswith('[1:]') and \
                             norm(c.comparators[0]).endswith('[0]'):
                         return {ast.Eq: '=', ast.NotEq: '!=', ast.GtE: '<=', ast.Gt: '<'}.get(type(c.ops[0]), '?')
+    # vectorised row predicate with a strictness flag: `is_strict = <test on type / flag>` ... `lambda row:
+    # _is_ordered(row, strict=is_strict)` where the helper compares `row[1:]` with `row[:-1]`
+    r = _flagged_row_predicate(fn, body, member, flags or {})
+    if r is not None:
+        return r
     # row checker function (nested, or a module-level helper handed to the row iteration):
     #   `if row[i] <op> row[i-1]: return False ... return True`, `return not any(row[i] <op> row[i-1] for i in ...)`,
     #   `return all(row[i] <op> row[i-1] for i in ...)`
